@@ -667,7 +667,30 @@ class TensorDictSequential(TensorDictModule):
     def __setitem__(
         self, index: int | slice | str, tensordict_module: TensorDictModuleBase
     ) -> None:
-        return self.module.__setitem__(idx=index, module=tensordict_module)
+        if isinstance(index, slice):
+            tensordict_module = self._convert_modules(tensordict_module)
+        else:
+            (tensordict_module,) = self._convert_modules([tensordict_module])
+        # positional: ModuleList names its arguments (idx, module), ModuleDict (key, module)
+        self.module.__setitem__(index, tensordict_module)
+        self._recompute_keys()
 
     def __delitem__(self, index: int | slice | str) -> None:
-        self.module.__delitem__(idx=index)
+        self.module.__delitem__(index)
+        self._recompute_keys()
+
+    def _recompute_keys(self) -> None:
+        # the advertised in_keys / out_keys follow the modules: after an item assignment or deletion
+        # they are computed again (a selection of out_keys keeps the keys that are still written)
+        if isinstance(self.module, nn.ModuleDict):
+            modules = list(self.module.values())
+        else:
+            modules = list(self.module)
+        in_keys, out_keys = self._compute_in_and_out_keys(modules)
+        self._complete_out_keys = list(out_keys)
+        self.in_keys = in_keys
+        self._out_keys = unravel_key_list(list(out_keys))
+        if self._select_before_return:
+            self.out_keys = [key for key in self.out_keys if key in self._out_keys]
+        else:
+            self.out_keys = out_keys
